@@ -45,6 +45,8 @@ def _norm(d: dict) -> dict:
             out[k] = [(_norm(i) if isinstance(i, dict) else i) for i in v]
         else:
             out[k] = v
+        if not isinstance(k, str):
+            continue
         if k.startswith("tl_") and out[k] is None:
             out[k] = []
         if k.startswith("td_") and out[k] is None:
@@ -103,11 +105,13 @@ def scalars_symbolic(i: Optional[int], f: Optional[float], s: Optional[str], b: 
     t = Schema()
     t.v = IntField()
     schema = Schema(dynamic=True)
-    schema.i = IntField()
-    schema.f = FloatField()
-    schema.s = StringField()
-    schema.b = BoolField()
+    # declared defaults are NOT None: a value set to None must still come back as None
+    schema.i = IntField(default=7)
+    schema.f = FloatField(default=1.5)
+    schema.s = StringField(default="dflt")
+    schema.b = BoolField(default=True)
     schema.sub.deep.x = IntField(default=1)
+    schema.sub.deep.opt = StringField(default="o")
     schema.ct = make_type_nt(t, "T")
     schema.virt = VirtualField(lambda cfg: 42)
     instance_method(schema, "meth")(lambda cfg: 1)
@@ -115,6 +119,7 @@ def scalars_symbolic(i: Optional[int], f: Optional[float], s: Optional[str], b: 
     def fill(cfg):
         cfg.i, cfg.f, cfg.s, cfg.b = i, f, s, b
         cfg.sub.deep.x = deep
+        cfg.sub.deep.opt = s
         cfg.ct.v = deep
         cfg.extra = dyn
     return _roundtrip(schema, fill, virtual_keys=("virt",), method_keys=("meth",))
@@ -144,6 +149,7 @@ def containers(n: int, x: int, y: int, vi: int, state: int) -> bool:
     schema.tl_bytes = ListField(BytesField())
     schema.tl_hex = ListField(BytesField(encoding="hex"))
     schema.td_bytes = DictField(StringField(), BytesField())
+    schema.td_byteskey = DictField(BytesField(encoding="hex"), IntField())
     schema.tl_sec = ListField(SecureField(method="xor"))
     schema.tl_ch = ListField(ChallengeField("md5"))
     schema.tl_items = ListField(item)
@@ -156,13 +162,14 @@ def containers(n: int, x: int, y: int, vi: int, state: int) -> bool:
         if state == 1:
             for k in ("tl_int", "tl_bytes", "tl_hex", "tl_sec", "tl_ch", "tl_items", "untyped"):
                 cfg[k] = []
-            cfg.td_int, cfg.td_bytes, cfg.untyped_d = {}, {}, {}
+            cfg.td_int, cfg.td_bytes, cfg.untyped_d, cfg.td_byteskey = {}, {}, {}, {}
             return
         cfg.tl_int = [x, y][:n]
         cfg.td_int = {k: v for k, v in (("a", x), ("b", y))[:n]}
         cfg.tl_bytes = [blob, b"\xff"]
         cfg.tl_hex = [blob]
         cfg.td_bytes = {"k": blob}
+        cfg.td_byteskey = {blob: x, b"\x01\x02": y}
         cfg.tl_sec = [text, "pw"]
         cfg.tl_ch = [text]
         it1, it2 = item(), item()   # (a map given for an item is a *tree*: on-disk forms; objects carry values)
